@@ -12,6 +12,7 @@ mod eng_par;
 mod eng_viz;
 mod eng_ex;
 mod exgen;
+mod exgen_b;
 
 pub struct Args {
     pub engine: String,
